@@ -91,7 +91,9 @@ func c12(c *Ctx) {
 			report := func(kind, what string) {
 				cls := classify(rc, ji)
 				sig := "C12/" + kind
-				if cls == "sentinel-in-content" && kind == "incomplete-document" {
+				if cls == "sentinel-in-content" && (kind == "incomplete-document" || (kind == "error-lost" && j.Plan.ShortAt == 1 && werr == "")) {
+					// (a short write of an EMPTY document is no failure: when the eraser has eaten the whole document,
+					// the writer never gets the chance to fail — same root cause, same signature)
 					sig = "C12/sentinel-in-content"
 				}
 				if cls == "attributes-command" && kind == "incomplete-document" {
